@@ -195,6 +195,54 @@ fn fam_extremes(ctx: &CaseCtx, cov: &mut Cov) -> CaseOut {
     out
 }
 
+/// Very long chunk sequences: chunk counts around the widths a counter could
+/// have (2^8, 2^16, 2^17), mostly 1-byte uncompressed chunks, with LZMA chunks
+/// of every non-dictionary-reset class sitting exactly on and next to those
+/// boundaries and now and then in between (their copies reach far back across
+/// thousands of chunks).
+fn fam_long(ctx: &CaseCtx, cov: &mut Cov) -> CaseOut {
+    let mut out = CaseOut::default();
+    let mut rng = ctx.rng();
+    const NS: [usize; 8] = [65_537, 257, 131_073, 65_536, 256, 65_535, 255, 70_000];
+    let n = NS[(ctx.index % NS.len() as u64) as usize];
+    let mut chunks = Vec::with_capacity(n);
+    let mut it = Interp::new();
+    let mut pg = ProgGen::new();
+    let mut props = random_props_l2(&mut rng);
+    let mut lzma_at_boundary = 0u64;
+    for i in 0..n {
+        let boundary = i % 256 == 0 || matches!(i % 65_536, 1 | 65_535);
+        let lz = i == 0 || (boundary && rng.chance(2, 3)) || rng.chance(1, 3000);
+        if lz {
+            let reset: u8 = if i == 0 { 3 } else { *rng.pick(&[0u8, 0, 1, 2]) };
+            if reset >= 2 {
+                props = random_props_l2(&mut rng);
+            }
+            if reset == 3 {
+                it.hist.clear();
+            }
+            if reset >= 1 {
+                it.reps = [0; 4];
+                pg.state = 0;
+            }
+            let pp = ProgParams::standard(rng.range(1, 6) as usize, u64::MAX);
+            let prog = pg.generate(&mut rng, &pp, &mut it);
+            chunks.push(Chunk::Lzma { reset, props, prog });
+            if boundary && i > 0 {
+                lzma_at_boundary += 1;
+            }
+        } else {
+            let data = vec![rng.byte()];
+            it.hist.extend_from_slice(&data);
+            chunks.push(Chunk::Raw { reset_dict: false, data });
+        }
+    }
+    cov.max("long.chunks_in_one_stream", n as u64);
+    cov.name("long.lzma_chunks_on_counter_boundaries", lzma_at_boundary);
+    run_chunks("long", &chunks, &mut out, cov, ctx, &mut rng);
+    out
+}
+
 /// property changes that keep lc+lp (table refilled) and that change it
 /// (table reallocated), state carried by no-reset chunks in between
 fn fam_props(ctx: &CaseCtx, cov: &mut Cov) -> CaseOut {
@@ -424,6 +472,7 @@ pub fn monitor(tier: Tier) -> Monitor {
             Family { name: "random", count: tier.pick(12_000, 600_000), priority: false, enumerated: false, run: fam_random },
             Family { name: "props", count: tier.pick(4_000, 150_000), priority: false, enumerated: false, run: fam_props },
             Family { name: "extremes", count: tier.pick(300, 8_000), priority: false, enumerated: false, run: fam_extremes },
+            Family { name: "long", count: tier.pick(4, 48), priority: false, enumerated: false, run: fam_long },
             Family { name: "liblzma", count: tier.pick(300, 6_000), priority: false, enumerated: false, run: fam_liblzma },
         ],
         label,
